@@ -39,7 +39,7 @@ ObsInit(c) ==
    cur |-> [id |-> -1, c |-> "", b |-> "", set |-> <<>>],
    pend |-> <<>>,                       \* request id -> backend, for exchanges still in flight
    amap |-> {},                         \* learned (client, eligible sequence) -> backend
-   removed |-> {}, nreq |-> 0, nlimited |-> 0, nrejected |-> 0,
+   removed |-> {}, nreq |-> 0, nlimited |-> 0, nrejected |-> 0, nambig |-> 0,
    lastItems |-> <<>>, viol |-> <<>>]
 
 V(p, clause, info) == [prop |-> p, clause |-> clause, info |-> info]
@@ -135,7 +135,10 @@ ObsReply(o, id, status, kind, h) ==
       n == IF dispatched THEN o.pend[id] ELSE ""
       o0 == [Q(o) EXCEPT !.pend = IF dispatched THEN Del(o.pend, id) ELSE o.pend,
                          !.nlimited = IF kind = "rate_limited" THEN @ + 1 ELSE @,
-                         !.nrejected = IF kind \in {"cb_open", "cb_too_many"} THEN @ + 1 ELSE @]
+                         !.nrejected = IF kind \in {"cb_open", "cb_too_many"} THEN @ + 1 ELSE @,
+                         \* a 429 the harness could attribute neither to the limiter nor to the breaker (both could
+                         \* have refused and the refusal's wording, which no property fixes, names neither)
+                         !.nambig = IF kind = "refused_429" THEN @ + 1 ELSE @]
   IN
   IF ~dispatched
   THEN LET v503 == IF kind = "no_backend" /\ \E m \in Range(o.pool) : Eligible(o, m)
@@ -213,7 +216,7 @@ ObsSnap(o, e) ==
       npend == Cardinality(DOMAIN o.pend)      \* exchanges still in flight are counted in total only
       vPart == IF e.total # e.ok + e.failed + e.limited + npend THEN <<V("C13", "Partition", "sum")>> ELSE <<>>
       \* rate-limited is the one class the statement names exactly
-      vLim == IF e.limited # o.nlimited THEN <<V("C13", "LimitedCount", "rate_limited")>> ELSE <<>>
+      vLim == IF e.limited < o.nlimited \/ e.limited > o.nlimited + o.nambig THEN <<V("C13", "LimitedCount", "rate_limited")>> ELSE <<>>
       bt == {n \in DOMAIN o.b : n \in DOMAIN e.backends /\ e.backends[n].total # o.b[n].disp - o.b[n].infl
                                                           /\ e.backends[n].total # o.b[n].disp - o.b[n].infl - o.b[n].disp0}
       bt0 == {n \in DOMAIN o.b : n \notin DOMAIN e.backends /\ o.b[n].disp - o.b[n].infl # 0}
